@@ -1,5 +1,5 @@
 import Nstd.Life.LemmasOps
-import Nstd.Life.LemmasArrTr2
+import Nstd.Life.LemmasArrTr3
 /-
   C04, tie by translation: the member functions of Array.hpp, TRANSLATED from the current header by tools/gen_life.py
   (lean/Nstd/Generated/LifeArray.lean: `LifeArray.append`, `LifeArray.reserve`, ... - functions over the pointer machine
@@ -12,7 +12,7 @@ import Nstd.Life.LemmasArrTr2
   run out of it).  So for these functions the model's control flow is no longer a hand translation validated by runs only:
   a change of one of the C++ bodies changes the generated definition and breaks the proof below.
 
-  Covered here: reserve(n), append(const T&) with a caller's object and with a reference to an element of the array itself
+  Covered here: reserve(n), append(const Array&) with the other array and with the array itself, append(const T&) with a caller's object and with a reference to an element of the array itself
   (followed into the new storage), resize(n, value) shrinking and growing (caller's object), clear(), ~Array(), Array(),
   Array(capacity), swap (also with itself), remove(index) in and out of range, remove(Iterator), removeFront(), removeBack().
   See the OPEN block at the end for the functions that are translated but whose equality with the model is not proved yet.
@@ -104,6 +104,24 @@ theorem translated_constructor (st : State) (v cap fuel : Nat) (hv : v ≤ 1) (h
       LifeArray.ctorDefault fuel (rep st) v = LifeArray.ctorCap fuel (rep st) v 0 :=
   ArrTr.tr_ctor hv hd cap fuel
 
+/-- C04 `translated_append_array`: `a.append(b)` with b the OTHER array variable: reserve(size a + size b), then one copy construction
+    per element of b, the source pointer walking through b's storage (round 7, second leg). -/
+theorem translated_append_array (p : Per) (ops : List Op) (v w fuel : Nat) (hv : v ≤ 1) (hw : w ≤ 1) (hne : w ≠ v)
+    (hf : ((run (init p) ops).arrs v).size + ((run (init p) ops).arrs w).size < fuel) :
+    ∃ st', stepRes (run (init p) ops) (.aAppendArr v w) = .ok st' ∧
+      LifeArray.appendArr fuel (rep (run (init p) ops)) v w = some (rep st', ()) :=
+  ArrTr.tr_appendArr_other (ArrTr.aok_reach p ops v hv) (ArrTr.aok_reach p ops w hw) hne fuel hf
+
+/-- C04 `translated_append_array_self`: `a.append(a)` - the self-argument case at the level of the translated code: `values._begin.item`
+    is read AFTER `reserve` (the two references alias, so it is the new storage), the loop copies the old elements 0 .. size-1 while the
+    end pointer it compares with was fixed before; the result is the model's `aAppendArr v v` (whose value is `a ++ a`:
+    `append_self_as_if_copied`). -/
+theorem translated_append_array_self (p : Per) (ops : List Op) (v fuel : Nat) (hv : v ≤ 1)
+    (hf : ((run (init p) ops).arrs v).size + ((run (init p) ops).arrs v).size < fuel) :
+    ∃ st', stepRes (run (init p) ops) (.aAppendArr v v) = .ok st' ∧
+      LifeArray.appendArr fuel (rep (run (init p) ops)) v v = some (rep st', ()) :=
+  ArrTr.tr_appendArr_self (ArrTr.aok_reach p ops v hv) fuel hf
+
 /-- non-vacuity: a reachable state with a full array (size 3 = capacity 3): the translated `append(a[0])` reallocates, copies the
     three elements into the new block, destroys the old ones, releases the old block and constructs the copy of the re-based
     element - the same 10 events as the model (evaluated by the kernel) -/
@@ -116,10 +134,12 @@ OPEN: translated by tools/gen_life.py into Nstd/Generated/LifeArray.lean, loops 
 `assign_loop`, `appendArr_loop`, `appendPtr_loop`, `resize_loop2_heap` compute `copySlots` / `fillSlots` for every start and count), but
 the FUNCTION-level equality with the model operation is not proved yet:
   * `Array(const Array&)` = `[aCreate, aReserve cap_w] ++ aPush (elem w j)`;  `operator=` = `.assign`;
-  * `append(const Array&)` (other and itself) = `.aAppendArr`;  `append(const T*, n)` with a range of the array itself = `.aAppendPtr`;
+  * `append(const T*, n)` with a range of the array itself = `.aAppendPtr`;
   * `resize(n, a[i])` growing with a reference to an own element = `.aResizeRef` (the shrinking case is `tr_resize_shrink`).
-Missing step: `execAll` of the chain `aPush v (elem w j)`, j = 0..k-1, equals `copySlots` (induction like `ArrTr.exec_pushes`, with the source
-index bound `j < size w` re-established after every push when w = v).  These five remain tied by the correspondence run only.
+The chain lemma is there since the second leg (`ArrTr.exec_copy_other`, `ArrTr.exec_copy_self`: `execAll` of `aPush v (elem w j)`, j = si..si+k-1,
+equals `copySlots`, for another array and for the array itself with the source bound re-established after every push) and closes
+`append(const Array&)` (`translated_append_array`, `translated_append_array_self`); the same composition for these four is not written yet.
+They remain tied by the correspondence run only.
 -/
 
 end Nstd.Life
